@@ -156,6 +156,21 @@ CLAIMED = {
               "canonicalisation (unused xmlns declarations left on inner elements are ignored, see DESIGN §6)."),
         technique="Lean 4 proof (mutual structural induction on an inductive noise-insertion relation) + cleanup-pass correspondence + metamorphic conversion search",
         ref="DESIGN.md §4 C14"),
+    "C17": dict(
+        text=("The Lean pipeline model is total (every loop is structural or fuelled, Lean accepts no other definition) and "
+              "theorems state: a normal return of topicosvg passed the conformance gate (so it is an exception or a gated "
+              "picosvg, never a half-converted tree); running any fuelled loop out of fuel yields RecursionError, not a value; a "
+              "document without use elements leaves the use loop after zero rounds. The tie: every document of an adversarial "
+              "grammar (use / clipPath / gradient reference cycles, dangling and malformed references, exponential use chains, "
+              "DOCTYPE with internal, nested and external entities) is converted in a watchdogged subprocess (copying and "
+              "in-place mode, 10 s, 2 GiB) and the model must predict the same outcome class; a timeout is a violation unless "
+              "the model exhausts its fuel on the same document, which then is reported as the hang witness. External entity "
+              "content is monitored with a canary file. Not proved: that fuel suffices for every acyclic document (checked per "
+              "run), wall-clock proportionality, and libxml2's own termination."),
+        note=("Trusted: Lean kernel; standard axioms; harness watchdog; libxml2 / lxml entity handling; Skia termination (oracle "
+              "calls are assumed to return). Two genuine hangs found and repaired (eba6373, cd2b38d)."),
+        technique="Lean 4 proof (totality by construction + gate/fuel theorems) + watchdogged differential execution against the total model",
+        ref="DESIGN.md §4 C17"),
 }
 
 def main():
